@@ -934,7 +934,8 @@ def contexts_active_in_frame(
         # the next frame
         args = inspect.getargvalues(next_inner)
         if args.args:
-            ret[-1].obj = args.locals[args.args[0]]
+            # (the exit method might have unbound its first argument: 'del self')
+            ret[-1].obj = args.locals.get(args.args[0])
 
     return ret
 
